@@ -154,6 +154,13 @@ class MetaOnly(Suite):
         if model.get("c01_m") is False and model.get("c01") is not False:
             agree = False
             notes.append("destination differs from the model's forwarded set: %s" % model.get("c01_m_why"))
+        if model.get("canon") is False:
+            # premise of C19.forwarded_is_selected_plus_ancestors, evaluated on the stream the real sender produced
+            agree = False
+            notes.append("the announced stream (listing name taken out) is not canonical (C19F.mcanonB = false)")
+        elif model.get("fwd_is_spec") is False:
+            agree = False
+            notes.append("the model's forwarded entries differ from the reference although the stream is canonical (contradicts C19.forwarded_is_selected_plus_ancestors)")
         ups = [(n["kind"] == "delete", n["p"]) for n in impl.get("notif", [])]
         if len(set(ups)) != len(ups):
             ok = False
@@ -172,7 +179,8 @@ class MetaOnly(Suite):
         n = len(op["src"]["tree"])
         return ["entries=%s" % ("<50" if n < 50 else ">=50"), "selected=%s" % ("none" if not op["opt"]["metaonly"] else "some"),
                 "src_has_listing_name=%s" % any(e["p"] == META for e in op["src"]["tree"]),
-                "dst_has_listing_name=%s" % any(e["p"] == META for e in op["dst"]), "reqs=%d" % min(len(reqs_of(impl)), 5)]
+                "dst_has_listing_name=%s" % any(e["p"] == META for e in op["dst"]), "reqs=%d" % min(len(reqs_of(impl)), 5),
+                "canonical_stream=%s" % model.get("canon")]
 
     def shrink(self, op):
         out = []
